@@ -65,10 +65,12 @@ CHECKS = {
              props=['C16', 'C05', 'C02', 'C07', 'C09'],
              batches=[dict(profile='sym', flavour='plain', quick=40000, thorough=2000000), dict(profile='sym', flavour='asan', quick=3000, thorough=100000)],
              must_probe=['sym_runs_checked', 'sym_runs_mmd_at_plus_a', 'lusup_allocs_checked', 'factorizations_checked']),
- 'C17': dict(seed_offset=17, level='exploration', rule=RULE_A + "; a case here is a history (as in C08) extended with early-return calls (workspace query, illegal argument, exactly singular matrix, caller workspace too small) that ends with the documented destroy calls and is executed twice in a row",
+ 'C17': dict(seed_offset=17, level='exploration', rule=RULE_A + "; a case here is a history (as in C08) extended with early-return calls (workspace query, illegal argument, exactly singular matrix, caller workspace too small) that ends with the documented destroy calls and is executed twice in a row; the ordering call (get_perm_c) is part of each repetition; a second batch runs SymmetricMode = YES histories (query, factor, reuse, refactor, destroy) on the symmetric-mode matrix class of C16",
              props=['C17'],
-             batches=[dict(profile='leak', flavour='plain', quick=20000, thorough=1000000)],
-             must_probe=['leak_histories_checked', 'workspace_queries', 'illegal_argument_calls', 'workspace_too_small_returns', 'refactorizations', 'factored_calls'],
+             batches=[dict(profile='leak', flavour='plain', quick=20000, thorough=1000000),
+                      dict(profile='symleak', flavour='plain', quick=6000, thorough=300000)],
+             must_probe=['leak_histories_checked', 'workspace_queries', 'illegal_argument_calls', 'workspace_too_small_returns', 'refactorizations', 'factored_calls',
+                         'ordering_calls_leak_checked', 'ordering_calls_empty_adjacency', 'cfg_symmetric_mode'],
              assumptions=["accounting covers every malloc/calloc/realloc/free issued inside a library call (link-time wrappers); thread accounting is the simulator's own (created = finished = joined, checked on every call of every profile)",
                           "runs that end in the abort path are not leak-checked (the process is gone)"]),
  'C18': dict(seed_offset=18, level='exploration',
